@@ -26,6 +26,7 @@ TAGS = ('Since', 'Deprecated', 'Stability')
 GENERIC = ('skip', 'attributes', 'Since', 'Deprecated', 'Stability', 'desc')
 ASYNC = ('finish-func', 'sync-func', 'async-func')
 ROLE = ('constructor', 'method')
+ASYNC_ATTRS = ('@glib:finish-func', '@glib:sync-func', '@glib:async-func')
 
 FULL_MENU = [
     ['skip', None], ['foreign', None], ['constructor', None], ['method', None], ['value', '7'],
@@ -41,6 +42,8 @@ FULL_MENU = [
     ['emitter', 'meth'], ['emitter', 'emit_sig'], ['emitter', 'nosuch'],
     ['virtual', 'vmeth'], ['virtual', 'do_thing'], ['virtual', 'nosuch'],
     ['finish-func', 'foo_other'], ['sync-func', 'foo_other'], ['async-func', 'foo_other'],
+    # explicit targets that exist but are not the heuristic partner (foo_async -> foo_finish / foo)
+    ['sync-func', 'load_alt'], ['finish-func', 'save_finish'], ['async-func', 'save_async'],
     ['ref-func', 'foo_obj_dup'], ['unref-func', 'foo_obj_meth'], ['set-value-func', 'foo_x'],
     ['get-value-func', 'foo_y'], ['copy-func', 'foo_rec_dup'], ['free-func', 'foo_rec_free'],
     ['Since', '1.2'], ['Since', '1.2: added'], ['Since', 'soon'],
@@ -87,6 +90,7 @@ class Expect(object):
     def __init__(self):
         self.must = {}     # (id, field) -> (set(values), label)
         self.may = []      # (id or None, field or None or frozenset)
+        self.mustnot = {}  # (id, field) -> (set(values), label): values the field MUST NOT have
         self.warn = []     # reasons why a diagnostic is expected (role annotation the signature does not permit)
 
     def m(self, i, f, v, label):
@@ -95,6 +99,9 @@ class Expect(object):
             self.must[k] = (self.must[k][0] | {v}, self.must[k][1])
         else:
             self.must[k] = ({v}, label)
+
+    def n(self, i, f, v, label):
+        self.mustnot.setdefault((i, f), (set(), label))[0].add(v)
 
     def y(self, i, f=None):
         if isinstance(f, (set, list, tuple)):
@@ -334,6 +341,35 @@ def expect(case, vb, va, fva, fvb):
             else:
                 raise ValueError('unknown item %r' % name)
 
+    # ---- async families of class / interface methods (name-based pairing applies there) -------------
+    # An explicit (sync-func X) / (async-func X) / (finish-func X) is what the GIR carries (MUST above).
+    # What the un-annotated partners found by name then carry is not fixed by the statement, except that a
+    # partner must not claim a counterpart that contradicts the explicit annotation.
+    for b in blocks:
+        e = ELEMENTS.get(b['name'])
+        if not e or e['kind'] not in FN or not e.get('fam') or has_role[b['name']]:
+            continue
+        if not (e['cls'] or '').startswith(('class[', 'interface[')):
+            continue
+        sibs = [x for x in ELEMENTS.values() if x.get('fam') == e['fam'] and x is not e]
+        for name, arg in b['items']:
+            if name not in ASYNC:
+                continue
+            for x in sibs:
+                ex.y(x['id'], ASYNC_ATTRS)
+            if name == 'finish-func':
+                ex.y(e['id'], '@glib:sync-func')     # the sync partner is matched through the finish function
+            # (only this direction: what an un-annotated async method pairs itself with by name is its own
+            # heuristic and stays UNSPECIFIED)
+            counterpart = {'sync-func': '@glib:async-func'}.get(name)
+            if counterpart:
+                for x in sibs:
+                    xb = by_name.get(x['block'])
+                    if xb is not None and any(n2 in ASYNC for n2, _ in xb['items']):
+                        continue
+                    if name_of(x['id']) != arg:
+                        ex.n(x['id'], counterpart, name_of(e['id']), 'contradicts-explicit-' + name)
+
     # ---- virtual methods: own block, else inherit from the invoker ---------------------------
     for vname, v in ELEMENTS.items():
         if v['kind'] != 'vfunc':
@@ -400,6 +436,11 @@ def expect(case, vb, va, fva, fvb):
 
 def _role_may(ex, e):
     i = e['id']
+    if e.get('fam'):
+        # renaming / moving a member of an async family changes what is paired by name
+        for x in ELEMENTS.values():
+            if x.get('fam') == e['fam']:
+                ex.y(x['id'], ASYNC_ATTRS)
     ex.y(i, ('@name', 'sig', 'shape', '@moved-to', '@introspectable', '@glib:set-property', '@glib:get-property',
              '@shadows', '@shadowed-by'))
     if e['cls']:
